@@ -23,7 +23,7 @@ ROOT = os.path.dirname(os.path.dirname(os.path.dirname(os.path.abspath(__file__)
 
 def sizes(ctx):
     if ctx.quick:
-        return dict(core=900, excon=350, nola=120, wide=60, flags=120, fusion=150)
+        return dict(core=700, excon=260, nola=100, wide=50, flags=90, fusion=110)
     return dict(core=17000, excon=6000, nola=1200, wide=800, flags=4000, fusion=3000)
 
 def gen_cases(ctx):
@@ -65,6 +65,10 @@ def gen_cases(ctx):
         # with the Sec flag on, 40 % of the cases carry two Sec codons in one uncleaved stretch + an in-frame indel
         c = CG.gen_twosec_case(rng) if (sect and rng.random() < 0.4) else CG.gen_case(rng, coding_p=0.85)
         c['runs'] = [CG.gen_run(rng, rule='trypsin', exc_on=False, sect=sect, w2f=w2f)]
+        if w2f and CK.max_w_run(c, c['runs'][0], c['runs'][0]['max_len']) > 6:
+            c['runs'][0].update(w2f=False, extra=[e for e in c['runs'][0]['extra'] if e != '--w2f-reassignment'])   # 2^w images: keep w <= 6
+            if not c['runs'][0]['sect']:
+                c['runs'][0].update(sect=True, extra=['--selenocysteine-termination'])
         c['stream'] = 'flags'
         cases.append(c)
     # fusion transcripts: must_fusion_set (Model/SpecFusion.v) must be in the FASTA as well
@@ -186,9 +190,7 @@ def run(ctx):
                 seen.add(k); uniq.append(v)
         violations = uniq
     cases = gen_cases(ctx)
-    B = 1500
-    for i in range(0, len(cases), B):
-        judge(CK.run_batch(ctx, cases[i:i + B], tag='c01'), violations, stats)
+    stream_wall = CK.run_streams(ctx, cases, judge, violations, stats, want_may=True, tag='c01')
     # one representative per (finding, stream) is enough for known findings; all unexplained are kept
     keep, cnt = [], collections.Counter()
     for v in violations:
@@ -206,7 +208,7 @@ def run(ctx):
                 samples=samples, distribution=CK.dist_of(cases), stats=dict(stats),
                 slack={'out_minus_must': stats['slack_out_minus_must'], 'may_novel_minus_out': stats['slack_may_minus_out'],
                        'out_peptides': stats['out_peptides'], 'must_peptides': stats['must_peptides']},
-                known_finding_counts=dict(cnt), engine_tied_by='correspondence',
+                known_finding_counts=dict(cnt), engine_tied_by='correspondence', stream_wall_s=stream_wall,
                 violations=keep,
                 assumptions=['records are SNV / MNV / INDEL on linear transcripts; fusion, alternative splicing and circRNA records are not generated (property partial for them)',
                              'gene -> transcript coordinates are computed by the generator\'s own ground truth (harness/lib/gen_reference.py), not by the repo',
